@@ -58,51 +58,352 @@ fn required_clauses(p: u32) -> Vec<&'static str> {
     }
 }
 
+fn shapes_named(names: &[&str]) -> Vec<Universe> {
+    families::shapes(true).into_iter().filter(|u| names.iter().any(|n| u.label == *n)).collect()
+}
+
+fn slots_matching(n: usize, pats: &[&str]) -> Vec<Universe> {
+    families::slots(n).into_iter().filter(|u| pats.iter().any(|p| u.label.ends_with(&format!(":{}", p)))).collect()
+}
+
 pub fn plan(p: u32, tier: &str) -> Vec<Run> {
     let m = mon(p);
     let thorough = tier == "thorough";
     let mut runs: Vec<Run> = Vec::new();
     let mut add = |spec: Spec, universes: Vec<Universe>| runs.push(Run { spec, universes });
-    // --- the two base families every property gets
-    let mut s3 = s("S3D2", 2, m);
-    let mut s4 = s("S4D1", 1, m);
+    // building blocks -------------------------------------------------------
+    let s3 = |follow: bool| {
+        let mut x = s(if follow { "S3D2+follow" } else { "S3D2" }, 2, m);
+        x.follow = follow;
+        x
+    };
+    let s4 = |follow: bool| {
+        let mut x = s(if follow { "S4D1+follow" } else { "S4D1" }, 1, m);
+        x.follow = follow;
+        x
+    };
+    let s3d3 = || s("S3D3", 3, m);
+    let noise = |name: &str, depth: usize, follow: bool, twin: bool| {
+        let mut x = s(name, depth, m);
+        x.noise = true;
+        x.cmp = Cmp::Noise;
+        x.follow = follow;
+        x.twin = twin;
+        x
+    };
+    let rename = |name: &str, conv: Conv, cmp: Cmp| {
+        let mut r = s(name, 3, m);
+        r.conv = conv;
+        r.cmp = cmp;
+        r.faults = vec![false, true, false];
+        r
+    };
+    let shapes_spec = |name: &str, depth: usize, follow: bool| {
+        let mut x = s(name, depth, m);
+        x.follow = follow;
+        x
+    };
+    let s4d2k = |name: &str, k: usize, faults: Vec<bool>| {
+        let mut x = s(name, 2, m);
+        x.edit_bound = Some(k);
+        x.faults = faults;
+        x
+    };
+    let eph_shapes = ["late-requirement", "E-E-O+A", "E-E-E-O+A", "E-E-O+A-mid", "E-O-E-O"];
     match p {
         1 => {
-            s3.follow = true;
-            add(s3, families::slots(3));
-            add(s4, families::slots(4));
+            add(s3(true), families::slots(3));
+            add(s4(false), families::slots(4));
             let mut ig = s("S3D2-ignore", 2, m);
             ig.faults = vec![true, false];
             add(ig, families::slots_ignore(3));
-            for (conv, cmp, name) in [(Conv::Parts, Cmp::Prod, "rename-prod"), (Conv::JobIds, Cmp::Plain, "rename-test")] {
-                let mut r = s(name, 3, m);
-                r.conv = conv;
-                r.cmp = cmp;
-                r.faults = vec![false, true, false];
-                add(r, families::rename(true, Kind::O));
-            }
+            add(rename("rename-prod", Conv::Parts, Cmp::Prod), families::rename_opts(true, Kind::O, false));
+            add(rename("rename-test", Conv::JobIds, Cmp::Plain), families::rename_opts(false, Kind::O, false));
             if thorough {
-                let mut d3 = s("S3D3", 3, m);
-                d3.follow = false;
-                add(d3, families::slots(3));
-                let mut rm = s("S3D2-remove", 2, m);
+                add(s3d3(), families::slots(3));
+                let mut rm = s("S3D2-remove+follow", 2, m);
                 rm.fail_mode = FailMode::Remove;
                 rm.follow = true;
                 add(rm, families::slots(3));
                 let mut ue = s("S3D2-unread-edge", 2, m);
                 ue.faults = vec![true, false];
                 add(ue, families::slots_unread_edge(3));
-                let mut s42 = s("S4D2-k1", 2, m);
-                s42.edit_bound = Some(1);
-                add(s42, families::slots_full_only(4));
-                let mut sh = s("shapes-D2", 2, m);
-                sh.follow = true;
+                add(rename("rename-prod-full", Conv::Parts, Cmp::Prod), families::rename(true, Kind::O));
+                add(rename("rename-prod-ephemeral", Conv::Parts, Cmp::Prod), families::rename_opts(true, Kind::E, false));
+                add(shapes_spec("shapes-D2+follow", 2, true), families::shapes(true));
+                add(s4d2k("S4D2-k1", 1, vec![true, true]), families::slots_full_only(4));
+            }
+        }
+        2 => {
+            add(s3(false), families::slots(3));
+            add(s4(false), families::slots(4));
+            add(shapes_spec("eph-shapes-D2", 2, false), shapes_named(&eph_shapes));
+            if thorough {
+                add(s3d3(), families::slots(3));
+                add(shapes_spec("shapes-D2+follow", 2, true), families::shapes(true));
+                add(shapes_spec("eph-shapes-D3", 3, false), shapes_named(&["late-requirement", "E-E-O+A", "E-E-O+A-mid"]));
+                add(s4d2k("S4D2-k1", 1, vec![true, true]), families::slots_full_only(4));
+                let mut o = s("S4D1-orders", 1, m);
+                o.orders = Orders::AllNodes;
+                o.faults = vec![false];
+                add(o, families::slots_full_only(4));
+            }
+        }
+        3 | 4 => {
+            add(s3(true), families::slots(3));
+            add(s4(false), families::slots(4));
+            add(rename("rename-prod", Conv::Parts, Cmp::Prod), families::rename_opts(true, Kind::O, false));
+            add(rename("rename-test", Conv::JobIds, Cmp::Plain), families::rename_opts(false, Kind::O, false));
+            add(noise("S3D2-noise", 2, false, false), families::slots(3));
+            add(noise("S3D3-noise-E-consumers", 3, false, false), slots_matching(3, &["EOO", "EEO", "AEO"]));
+            if p == 4 {
+                let mut ig = s("S3D2-ignore", 2, m);
+                ig.faults = vec![true, false];
+                add(ig, families::slots_ignore(3));
+            }
+            if thorough {
+                add(s3d3(), families::slots(3));
+                add(noise("S3D3-noise", 3, false, false), families::slots(3));
+                let mut pr = s("S3D2-prod", 2, m);
+                pr.cmp = Cmp::Prod;
+                pr.conv = Conv::Parts;
+                pr.noise = true;
+                add(pr, families::slots(3));
+                add(rename("rename-prod-full", Conv::Parts, Cmp::Prod), families::rename(true, Kind::O));
+                add(shapes_spec("shapes-D2+follow", 2, true), families::shapes(true));
+                add(s4d2k("S4D2-k1", 1, vec![true, true]), families::slots_full_only(4));
+            }
+        }
+        5 => {
+            add(s3(false), families::slots(3));
+            add(s4(false), families::slots(4));
+            let mut o = s("S3D2-orders", 2, m);
+            o.orders = Orders::AllNodes;
+            add(o, families::slots(3));
+            add(shapes_spec("shapes-D2", 2, false), families::shapes(true));
+            if thorough {
+                add(s3d3(), families::slots(3));
+                let mut o = s("S4D1-orders", 1, m);
+                o.orders = Orders::AllNodes;
+                add(o, families::slots_full_only(4));
+                add(s4d2k("S4D2-k1", 1, vec![true, true]), families::slots_full_only(4));
+                add(shapes_spec("shapes-D2+follow", 2, true), families::shapes(true));
+                let mut s5 = s("S5D1-full", 1, m);
+                s5.faults = vec![true];
+                add(s5, families::slots_full_only(5));
+            }
+        }
+        6 => {
+            add(s3(true), families::slots(3));
+            add(s4(false), families::slots(4));
+            add(shapes_spec("shapes-D2", 2, false), families::shapes(true));
+            add(rename("rename-prod", Conv::Parts, Cmp::Prod), families::rename_opts(false, Kind::O, false));
+            if thorough {
+                add(s3d3(), families::slots(3));
+                add(noise("S3D3-noise", 3, false, false), families::slots(3));
+                add(s4(true), families::slots(4));
+                add(shapes_spec("shapes-D2+follow", 2, true), families::shapes(true));
+                add(s4d2k("S4D2-k1", 1, vec![true, true]), families::slots_full_only(4));
+                let mut rc = s("S3D2-reconsider", 2, m);
+                rc.reconsider = true;
+                add(rc, families::slots(3));
+                add(rename("rename-prod-full", Conv::Parts, Cmp::Prod), families::rename(true, Kind::O));
+            }
+        }
+        7 => {
+            add(s3(false), families::slots(3));
+            add(s4(false), families::slots(4));
+            add(shapes_spec("shapes-D2", 2, false), families::shapes(true));
+            if thorough {
+                add(s3d3(), families::slots(3));
+                add(s4d2k("S4D2-k1", 1, vec![true, true]), families::slots_full_only(4));
+                add(shapes_spec("shapes-D2+follow", 2, true), families::shapes(true));
+                let mut s5 = s("S5D1-full", 1, m);
+                s5.faults = vec![true];
+                add(s5, families::slots_full_only(5));
+            }
+        }
+        8 | 9 => {
+            add(s3(true), families::slots(3));
+            add(s4(true), families::slots(4));
+            if thorough {
+                add(s3d3(), families::slots(3));
+                let mut d3f = s("S3D3-follow-last", 3, m);
+                d3f.follow = true;
+                d3f.faults = vec![false, false, true];
+                add(d3f, families::slots(3));
+                add(shapes_spec("shapes-D2+follow", 2, true), families::shapes(true));
+                let mut rm = s("S3D2-remove+follow", 2, m);
+                rm.fail_mode = FailMode::Remove;
+                rm.follow = true;
+                add(rm, families::slots(3));
+                add(noise("S3D2-noise+follow", 2, true, false), families::slots(3));
+            }
+        }
+        10 => {
+            add(s3(false), families::slots(3));
+            add(s4(false), families::slots(4));
+            add(shapes_spec("shapes-D1", 1, false), families::shapes(true));
+            if thorough {
+                add(s3d3(), families::slots(3));
+                add(shapes_spec("shapes-D2", 2, false), families::shapes(true));
+                add(s4d2k("S4D2-k1", 1, vec![false, true]), families::slots_full_only(4));
+                let mut s5 = s("S5D1-full", 1, m);
+                s5.faults = vec![true];
+                add(s5, families::slots_full_only(5));
+            }
+        }
+        11 => {
+            add(s3(true), families::slots(3));
+            add(s4(false), families::slots(4));
+            add(rename("rename-prod", Conv::Parts, Cmp::Prod), families::rename_opts(false, Kind::O, false));
+            add(noise("S3D2-noise", 2, false, false), families::slots(3));
+            if thorough {
+                add(s3d3(), families::slots(3));
+                add(noise("S3D3-noise", 3, false, false), families::slots(3));
+                add(shapes_spec("shapes-D2+follow", 2, true), families::shapes(true));
+                add(rename("rename-prod-full", Conv::Parts, Cmp::Prod), families::rename(true, Kind::O));
+            }
+        }
+        12 => {
+            add(s3(true), families::slots(3));
+            add(s4(true), families::slots(4));
+            add(noise("S3D2-noise+follow", 2, true, false), families::slots(3));
+            if thorough {
+                let mut d3f = s("S3D3+follow-last", 3, m);
+                d3f.follow = true;
+                d3f.faults = vec![true, true, false];
+                add(d3f, families::slots(3));
+                add(shapes_spec("shapes-D2+follow", 2, true), families::shapes(true));
+                let mut rn = rename("rename-prod+follow", Conv::Parts, Cmp::Prod);
+                rn.follow = true;
+                add(rn, families::rename_opts(true, Kind::O, false));
+            }
+        }
+        13 => {
+            add(s3(false), families::slots(3));
+            add(s4(false), families::slots(4));
+            add(shapes_spec("shapes-D2", 2, false), families::shapes(true));
+            if thorough {
+                add(s3d3(), families::slots(3));
+                add(s4d2k("S4D2-k1", 1, vec![true, true]), families::slots_full_only(4));
+                let mut s5 = s("S5D1-full", 1, m);
+                s5.faults = vec![true];
+                add(s5, families::slots_full_only(5));
+            }
+        }
+        14 => {
+            let mut o = s("S3D2-orders", 2, m);
+            o.orders = Orders::AllNodes;
+            add(o, families::slots(3));
+            let mut o4 = s("S4D1-orders-few", 1, m);
+            o4.orders = Orders::Few;
+            add(o4, families::slots(4));
+            add(rename("rename-prod", Conv::Parts, Cmp::Prod), families::rename_opts(true, Kind::O, false));
+            add(shapes_spec("shapes-D2", 2, false), families::shapes(true));
+            if thorough {
+                let mut oa = s("S3D2-orders-all", 2, m);
+                oa.orders = Orders::All;
+                add(oa, families::slots(3));
+                let mut o = s("S4D1-orders", 1, m);
+                o.orders = Orders::AllNodes;
+                add(o, families::slots_full_only(4));
+                let mut d3 = s("S3D3-orders-few", 3, m);
+                d3.orders = Orders::Few;
+                add(d3, families::slots(3));
+                let mut sh = shapes_spec("shapes-D2-orders-few", 2, false);
+                sh.orders = Orders::Few;
                 add(sh, families::shapes(true));
             }
         }
+        15 => {
+            add(noise("S3D2-noise-twin+follow", 2, true, true), families::slots(3));
+            add(noise("S3D3-noise-twin-E-consumers", 3, false, true), slots_matching(3, &["EOO", "EEO", "AEO"]));
+            let mut o = noise("S3D2-noise-orders", 2, false, false);
+            o.orders = Orders::Few;
+            o.faults = vec![true, false];
+            add(o, families::slots(3));
+            if thorough {
+                add(noise("S3D3-noise-twin", 3, false, true), families::slots(3));
+                add(noise("S4D1-noise-twin+follow", 1, true, true), families::slots(4));
+                let mut pr = s("S3D2-prod-twin", 2, m);
+                pr.cmp = Cmp::Prod;
+                pr.conv = Conv::Parts;
+                pr.noise = true;
+                pr.twin = true;
+                add(pr, families::slots(3));
+                add(noise("shapes-D2-noise-twin", 2, false, true), families::shapes(true));
+            }
+        }
+        16 => {
+            let mut v = s("S3D2-volatile+follow", 2, m);
+            v.follow = true;
+            add(v, families::slots_volatile(3));
+            let mut vn = noise("S3D2-volatile-noise+follow", 2, true, false);
+            vn.follow = true;
+            add(vn, families::slots_volatile(3));
+            let mut v4 = s("S4D2-volatile-k2", 2, m);
+            v4.edit_bound = Some(2);
+            v4.faults = vec![false, true];
+            add(v4, families::slots_volatile(4).into_iter().filter(|u| u.label.contains("EO") || u.label.contains("EE")).take(12).collect());
+            if thorough {
+                add(s("S3D3-volatile", 3, m), families::slots_volatile(3));
+                let mut v4 = s("S4D2-volatile-k2-all", 2, m);
+                v4.edit_bound = Some(2);
+                add(v4, families::slots_volatile(4));
+            }
+        }
+        17 => {
+            add(s3(false), families::slots(3));
+            add(s4(false), families::slots(4));
+            add(shapes_spec("shapes-D2", 2, false), families::shapes(true));
+            if thorough {
+                add(s3d3(), families::slots(3));
+                add(s4d2k("S4D2-k1", 1, vec![true, true]), families::slots_full_only(4));
+                add(s("S3D2-volatile", 2, m), families::slots_volatile(3));
+                let mut s5 = s("S5D1-full", 1, m);
+                s5.faults = vec![true];
+                add(s5, families::slots_full_only(5));
+            }
+        }
+        18 => {
+            add(s3(false), families::slots(3));
+            add(s4(false), families::slots(4));
+            add(rename("rename-prod", Conv::Parts, Cmp::Prod), families::rename_opts(true, Kind::O, false));
+            add(rename("rename-test", Conv::JobIds, Cmp::Plain), families::rename_opts(true, Kind::O, false));
+            if thorough {
+                add(s3d3(), families::slots(3));
+                add(rename("rename-prod-full", Conv::Parts, Cmp::Prod), families::rename(true, Kind::O));
+                add(rename("rename-prod-ephemeral", Conv::Parts, Cmp::Prod), families::rename_opts(true, Kind::E, false));
+                let mut r4 = rename("rename-prod-D4", Conv::Parts, Cmp::Prod);
+                r4.depth = 4;
+                r4.faults = vec![false, true, false, false];
+                add(r4, families::rename_opts(false, Kind::O, false));
+                add(s4d2k("S4D2-k2", 2, vec![false, true]), families::slots(4));
+            }
+        }
+        20 => {
+            let mut a = s3(false);
+            a.misuse = true;
+            a.name = "S3D2-misuse".into();
+            add(a, families::slots(3));
+            let mut b = s4(false);
+            b.misuse = true;
+            b.name = "S4D1-misuse".into();
+            add(b, families::slots(4));
+            if thorough {
+                let mut c = s3d3();
+                c.misuse = true;
+                c.name = "S3D3-misuse".into();
+                add(c, families::slots(3));
+                let mut d = shapes_spec("shapes-D2-misuse", 2, false);
+                d.misuse = true;
+                add(d, families::shapes(true));
+            }
+        }
         _ => {
-            add(s3, families::slots(3));
-            add(s4, families::slots(4));
+            add(s3(false), families::slots(3));
+            add(s4(false), families::slots(4));
         }
     }
     runs
